@@ -73,5 +73,8 @@ func repair(fileIO fileIO, parPath string, options RepairOptions) (RepairResult,
 // error returned by Repair means that repair is necessary but not
 // possible.
 func RepairErrorMeansRepairNecessaryButNotPossible(err error) bool {
-	return err == reedsolomon.ErrTooFewShards
+	// reedsolomon returns ErrShardNoData instead of
+	// ErrTooFewShards when there isn't a single usable data file
+	// or parity volume left.
+	return err == reedsolomon.ErrTooFewShards || err == reedsolomon.ErrShardNoData
 }
